@@ -299,12 +299,17 @@ MANIFEST = {
     "technique": "Lean 4 adjointness proofs for the ops the in-place machinery inserts (UnView, ApplyMask, SetItem) + C01's "
                  "engine theorem over the placeholder graph; executable model of _in_place_op/DuplicatingGraph run against MyGrad; "
                  "exact dual-number oracle of the equivalent functional program; per-op-class mutation monitor for H_vars_only",
-    "text": "The in-place machinery is modelled executably (placeholders, copy of the base, view replay, guarded call, ApplyMask, "
-            "UnView, mirroring, re-creation of views) and compared with MyGrad after every statement of random mutation histories; "
-            "C01's backward_sound then applies to the resulting placeholder graph. Proved in Lean for all shapes/index maps: the "
-            "VJPs of UnView, ApplyMask and SetItem (incl. repeated indices: last write wins) are the adjoints of the functional "
-            "updates they stand for; placeholders keep the pre-mutation value. The direct oracle runs the same statements through "
-            "plain NumPy on Fraction dual numbers (re-seeding the mutated family) and compares every owner's gradient exactly.",
+    "text": "The in-place machinery is modelled executably and compared with MyGrad after every statement of "
+            "random mutation histories; C01's backward_sound applies to the resulting placeholder graph "
+            "unchanged. Proved in Lean for all index lists, masks and values: the VJPs the engine model uses for "
+            "SetItem (model_vjp_setitem0/1: zero the written positions; mask to the last write of every "
+            "position), UnView and ApplyMask ARE the adjoints of the functional updates they stand for "
+            "(setitem_vjp_adjoint incl. repeated indices, unview_vjp_adjoint, applyMask_vjp_adjoint, built on "
+            "C02's setitem_vjp / where_mask_vjp), and a placeholder keeps pointing at the pre-mutation array "
+            "without any buffer being written (placeholder_keeps_value). The direct oracle runs the same "
+            "statements through plain NumPy on Fraction dual numbers (re-seeding the mutated family) and compares "
+            "every owner's gradient exactly; a forward/mutate-input/backward monitor over 20 op classes checks "
+            "that backward reads inputs only through Operation.variables.",
     "note": "Trusted: Lean kernel, standard axioms; correspondence harness. The graph-isomorphism between the placeholder graph and "
             "the SSA functional program is validated by the correspondence + exact oracle on every run, not proved in general "
             "(named gap inplace_graph_iso); H_vars_only is monitored per op class.",
